@@ -260,6 +260,10 @@ def write_replay(pid, payload):
 
 
 def write_evidence(pid, ev):
+    if REPO != '/repo':
+        # a development run against a scratch copy (VERIF_REPO=<dir>, mutation trials): evidence describes
+        # /repo's tree only, so it is not written
+        return
     d = os.path.join(VERIF, 'evidence')
     os.makedirs(d, exist_ok=True)
     tmp = os.path.join(d, f'.{pid}.json.tmp')
